@@ -978,6 +978,26 @@ struct run_cfg
     //        odd threads work through an any_allocator_reference made from the storage object);  mutex: inst | empty
 };
 
+// allocator_adapter flavour: behind reference_storage and the type-erased reference. (Embedded directly,
+// thread_safe_allocator<allocator_adapter<A>, M> inherits from two mutex_storage<> bases; on a tree where both become
+// mutex_storage<no_mutex> that is ill-formed, and a build failure is a poorer verdict than a schedule.)
+template <template <class, class> class Holder>
+struct adapter_maker
+{
+    static pworld_base* make(const program& p)
+    {
+        return new pworld<Holder<adp, imutex>>(p);
+    }
+};
+template <>
+struct adapter_maker<direct_holder>
+{
+    static pworld_base* make(const program&)
+    {
+        std::fprintf(stderr, "--alloc adapter is run with --storage ref|any\n");
+        std::exit(2);
+    }
+};
 template <template <class, class> class Holder>
 static pworld_base* make_world_for(const run_cfg& c, const program& p)
 {
@@ -1001,7 +1021,7 @@ static pworld_base* make_world_for(const run_cfg& c, const program& p)
     if (c.alloc == "fallback-sf")
         return new pworld<Holder<fb_sf, imutex>>(p);
     if (c.alloc == "adapter")
-        return new pworld<Holder<adp, imutex>>(p);
+        return adapter_maker<Holder>::make(p);
     if (c.alloc == "handle")
         return new pworld<handle_holder<Holder<ialloc, imutex>>>(p);
     if (c.alloc == "fallback-fs")
